@@ -144,6 +144,12 @@ def main():
         if signo == signal.SIGCONT:
             return
         if react == "exit":
+            # optional output written after the termination signal arrived (C16: the loop that waits
+            # out the grace period must keep reading)
+            if beh.get("term_stdout") is not None:
+                write_stream(1, beh.get("term_stdout"))
+            if beh.get("term_stderr") is not None:
+                write_stream(2, beh.get("term_stderr"))
             log({"ev": "end", "test": name, "attempt": attempt, "how": f"exit-on-signal-{signo}"})
             os._exit(beh.get("term_exit", 1))
         elif react == "die":
@@ -198,6 +204,8 @@ def main():
         write_stream(1, beh.get("stdout"))
     if beh.get("stderr") is not None:
         write_stream(2, beh.get("stderr"))
+    if beh.get("log_written"):
+        log({"ev": "written", "test": name, "attempt": attempt})
 
     state["end"] = time.monotonic() + beh.get("sleep", 0)
     while True:
